@@ -10,6 +10,7 @@ set_option linter.unusedVariables false
 * `dirs <ice:7> px py pz qx qy qz theta0 direct` → emitted (3) received (3)
 * `recip <ice:7> zf zt theta0 direct` → launch angle of the reversed path
 * `expected cf ct rho dmax imax` → three flags, `exists`, count
+* `attseg z1 z2 len dz` → `n` then `len/n` and the `n` left nodes of `linspace(z1, z2, n, endpoint=False)` (floats)
 * `usols n lo hi above below maxref px py pz qx qy qz` → per solution
   `refl up theta length tof emitted(3) received(3)` (all as floats), or `err` -/
 open PyrexF PyrexF.Geo PyrexF.Uni Proto
@@ -79,6 +80,12 @@ def handle (ts : List String) : String :=
       let e := expectedSolutions cf ct rh dmax imax
       " ".intercalate [boolTok e.1, boolTok e.2.1, boolTok e.2.2, boolTok (existsOf e), toString (countOf e)]
     | _, _, _ => "bad-op"
+  | "attseg" :: r =>
+    match floatsOfToks r with
+    | some [z1, z2, len, dz] =>
+      let n := nSteps z1 z2 dz
+      toString n ++ " " ++ joinFloats (len / Float.ofNat n :: attenNodes z1 z2 n)
+    | _ => "bad-op"
   | "usols" :: r =>
     match parseUIce r with
     | some (I, mr :: pts) =>
